@@ -1834,7 +1834,7 @@ func (g *Gen) checkFrameEntries(who string, entries []string, st *State) {
 }
 
 func heapKeyMatches(key string, spec string) bool {
-	if strings.HasPrefix(spec, "E:") || strings.HasPrefix(spec, "MV:") || strings.HasPrefix(spec, "MD:") || strings.HasPrefix(spec, "ghost:") || strings.HasPrefix(spec, "ptr:") {
+	if strings.HasPrefix(spec, "E:") || strings.HasPrefix(spec, "MV:") || strings.HasPrefix(spec, "MD:") || strings.HasPrefix(spec, "ghost:") || strings.HasPrefix(spec, "ptr:") || strings.HasPrefix(spec, "G:") {
 		return key == spec
 	}
 	// spec like "UpstreamHost.Conns" or "maxBytesReader.n": struct-name.field -> resolved lazily by suffix of type name; obj: keys hold whole structs
